@@ -162,10 +162,81 @@ def run(tier, seed):
             'activity': 'activity_Bq', 'basename': 'basename'}
     for k, pat in need.items():
         rep.add('REFUSAL', k, where(dc), 'driver constructor throws on an invalid %s' % k, any(pat in t for t in gtxt))
+    _window_guard(rep, dc)
     rep.assumptions += ['decided: write ordering, loop shape, determinism sources, configuration forwarding, refusal predicates',
                         'not decided: byte identity of two actual files, exact equality with API events beyond the structural '
                         'clauses, behaviour under I/O errors (the stream state of the event file is never consulted)']
     return rep
+
+
+def _window_guard(rep, dc):
+    """the window-support refusal must fire as soon as ONE bound of the window is given"""
+    from ..rules.scopes import Locals, parent_map
+    L = Locals(dc)
+    pm = parent_map(dc['body'])
+    sup = [n for n in astu.walk(dc['body']) if n['k'] == 'If' and any(c['callee']['qn'].endswith('dbd_supports_esum_range') for c in astu.calls(n['c']))
+           and any(x['k'] == 'Throw' for x in astu.walk(n['t']))]
+    if len(sup) != 1:
+        raise AnalysisBroken('driver constructor: the window-support refusal was not found (%d candidates)' % len(sup))
+    conds = [sup[0]['c']]
+    x = sup[0]
+    while id(x) in pm:
+        par = pm[id(x)]
+        if par['k'] == 'If' and x is par.get('t'):
+            conds.append(par['c'])
+        x = par
+
+    def ev(e, st):
+        e = astu.strip_casts(e)
+        k = e['k']
+        if k == 'Paren':
+            return ev(e['e'], st)
+        if k == 'Un' and e['op'] == '!':
+            v = ev(e['e'], st)
+            return None if v is None else not v
+        if k == 'Bin' and e['op'] in ('||', '&&'):
+            a, b = ev(e['a'], st), ev(e['b'], st)
+            if e['op'] == '||':
+                return True if (a is True or b is True) else (None if (a is None or b is None) else False)
+            return False if (a is False or b is False) else (None if (a is None or b is None) else True)
+        if k == 'Call' and e['callee']['qn'] in ('std::isnan', 'isnan') and e['args']:
+            t = astu.src(e['args'][0])
+            for b_ in ('min', 'max'):
+                if 'energy_%s_MeV' % b_ in t:
+                    return not st[b_]
+            return None
+        if k == 'Bin' and e['op'] in ('==', '!=') and astu.src(e['a']) == astu.src(e['b']):
+            t = astu.src(e['a'])
+            for b_ in ('min', 'max'):
+                if 'energy_%s_MeV' % b_ in t:
+                    return st[b_] if e['op'] == '==' else not st[b_]
+        if k == 'Ref' and e.get('dk') == 'local':
+            v = L.decl.get(e['id'])
+            if v is not None and 'init' in v and not L.assigns.get(e['id']):
+                return ev(v['init'], st)
+        if k == 'Call' and e['callee']['qn'].endswith('dbd_supports_esum_range'):
+            return False             # the case of interest: the mode has no window support
+        return 'other'               # a condition about something else (category, mode defined ...): assumed to hold
+    bad = []
+    undecided = False
+    for st in ({'min': True, 'max': False}, {'min': False, 'max': True}, {'min': True, 'max': True}):
+        for c in conds:
+            mentions = 'energy_min_MeV' in astu.src(c) or 'energy_max_MeV' in astu.src(c) or \
+                any(x_['k'] == 'Ref' and x_.get('dk') == 'local' and L.decl.get(x_['id'], {}).get('init') is not None and
+                    ('energy_m' in astu.src(L.decl[x_['id']]['init'])) for x_ in astu.walk(c))
+            if not mentions:
+                continue
+            v = ev(c, st)
+            if v is None:
+                undecided = True
+            elif v is False or v == 'other':
+                if v is False:
+                    bad.append('with %s the refusal is skipped by `%s`' % (' and '.join('E%s %s' % (k_, 'set' if s_ else 'unset') for k_, s_ in sorted(st.items())), astu.src(c)[:90]))
+    if undecided and not bad:
+        rep.cannot_decide('REFUSAL', where(dc, sup[0].get('l')), 'the conditions around the window-support refusal are not in a form this rule evaluates')
+        return
+    rep.add('REFUSAL', 'window:one-bound-suffices', where(dc, sup[0].get('l')), 'an energy window with only a lower or only an upper bound on a mode without '
+            'window support is refused like a two-sided one', not bad, '; '.join(bad) or None)
 
 
 def astu_texts(fn):
